@@ -50,6 +50,15 @@ func verifC06ConsumeVsAck() {
 	verifAssert(af != x || (x >= a0 && x <= cf), "an acknowledgement is only taken inside [acknowledged, consumed]")
 	verifAssert(x < a0 || x > c0 || af == x, "an acknowledgement inside [acknowledged, consumed] of the start state is taken")
 	fq.Close()
+	// what the two threads left in the group's meta page is what they left in memory: the positions
+	// survive close and reopen (the image is not lifted by the queue: qack <= a <= af)
+	fq2, err := NewFanOutQueue(dir, 0)
+	verifAssert(err == nil, "reopen after consume || ack succeeds")
+	if err == nil {
+		g2, _ := fq2.GetOrCreateConsumerGroup("g0")
+		verifAssert(g2.ConsumedSeq() == cf && g2.AcknowledgedSeq() == af, "the group's positions survive close and reopen after consume || ack")
+		fq2.Close()
+	}
 	verifReach("end")
 }
 
